@@ -282,6 +282,10 @@ pub enum SOp {
     Flash { tf: f64, z: f64, u: f64, ntot: f64, guess: Option<usize> },
     /// flash at the T, p of an earlier flash result but for another feed on its tie line
     FlashSameTp { from: usize, v: f64, ntot: f64, use_guess: bool },
+    /// flash at the pressure of an earlier flash result, at a shifted temperature, guided by it
+    FlashSameP { from: usize, dt: f64, ntot: f64 },
+    /// flash at the temperature of an earlier flash result, at a scaled pressure, guided by it
+    FlashSameT { from: usize, pf: f64, ntot: f64 },
 }
 
 #[derive(Serialize, Deserialize, Clone, Debug)]
@@ -729,6 +733,18 @@ fn session_binary_op(ctx: &mut Ctx, sc: &Session, i: usize, op: &SOp, pool_v: &m
             let p = rd.p + u * (rb.p - rd.p);
             flash_op(ctx, sc, i, t, p, *z, *ntot, guess.and_then(|g| (!pool_v.is_empty()).then(|| g % pool_v.len())), pool_v, opts);
         }
+        SOp::FlashSameP { from, dt, ntot } | SOp::FlashSameT { from, pf: dt, ntot } => {
+            let flashes: Vec<usize> = pool_v.iter().enumerate().filter(|(_, e)| e.1).map(|(k, _)| k).collect();
+            if flashes.is_empty() {
+                return;
+            }
+            let k = flashes[from % flashes.len()];
+            let g = num(&pool_v[k].0);
+            let z = (g.nv[0] + g.nl[0]) / (g.nv.iter().chain(&g.nl).sum::<f64>());
+            let (t, p) = if matches!(op, SOp::FlashSameP { .. }) { (g.t + dt, g.p) } else { (g.t, g.p * dt) };
+            ctx.out.count("probe.flash_continuation_same_p_or_t", 1);
+            flash_op(ctx, sc, i, t, p, z, *ntot, Some(k), pool_v, opts);
+        }
         SOp::FlashSameTp { from, v, ntot, use_guess } => {
             let flashes: Vec<usize> = pool_v.iter().enumerate().filter(|(_, e)| e.1).map(|(k, _)| k).collect();
             if flashes.is_empty() {
@@ -762,6 +778,10 @@ fn flash_op(ctx: &mut Ctx, sc: &Session, i: usize, t: f64, p: f64, z: f64, ntot:
             digest_num(&mut ctx.dg, &n);
             for a in n.nv.iter().chain(&n.nl) {
                 ctx.dg.f64(*a);
+            }
+            let tl = v.liquid().temperature.to_reduced();
+            if deviation(n.t, t, 1e-300) > 1e-12 || deviation(tl, t, 1e-300) > 1e-12 {
+                ctx.out.violate("flash-mismatch", "tp_flash:temperature", format!("op {i} tp_flash of {} at T={t}, p={p}: returned phases are at T = {} and {tl}", sys.name, n.t));
             }
             if g.is_some() {
                 ctx.out.count("probe.flash_guided_ok", 1);
@@ -1121,9 +1141,23 @@ fn driver_flash_line(ctx: &mut Ctx, sc: &Driver, z: f64, tf0: f64, tf1: f64, u: 
     };
     let grid = linspace(t0, t1, sc.npoints);
     ctx.out.steps += grid.len() as u64;
+    let mut prev_t: Option<f64> = None;
     for v in &dia.states {
         let g = num(v);
         digest_num(&mut ctx.dg, &g);
+        // the traversal visits every temperature once, in grid order
+        if let Some(pt) = prev_t {
+            if !((g.t - pt) * (t1 - t0) > 0.0) {
+                ctx.out.violate("driver-order", "driver_flash_line", format!("flash line of {} (z={z}, p={p}): temperature {} follows {} (point repeated or out of order)", sys.name, g.t, pt));
+            }
+        }
+        prev_t = Some(g.t);
+        // both phases are at the specified temperature and pressure
+        let tl = v.liquid().temperature.to_reduced();
+        let pl = v.liquid().pressure(Contributions::Total).to_reduced();
+        if deviation(tl, g.t, 1e-300) > 1e-12 || deviation(pl, p, 1e-300) > 1e-6 || deviation(g.p, p, 1e-300) > 1e-6 {
+            ctx.out.violate("driver-point-mismatch", "driver_flash_line", format!("flash line of {} (z={z}, p={p}): state at T={} has phases at (T, p) = ({}, {}) and ({tl}, {pl})", sys.name, g.t, g.t, g.p));
+        }
         let Some(tg) = grid.iter().find(|t| deviation(**t, g.t, 1e-300) <= 1e-9) else {
             ctx.out.violate("driver-off-grid", "driver_flash_line", format!("state at T={} is not a grid point", g.t));
             continue;
@@ -1164,7 +1198,7 @@ fn gen_session(rng: &mut Rng, tier: Tier, no_faults: bool) -> Session {
         if binary {
             let tf = rng.uniform(0.65, 0.95);
             let x = rng.uniform(0.05, 0.95);
-            let r = rng.below(10);
+            let r = rng.below(11);
             ops.push(match r {
                 0..=3 => SOp::BdT {
                     bubble: rng.chance(0.5),
@@ -1189,12 +1223,19 @@ fn gen_session(rng: &mut Rng, tier: Tier, no_faults: bool) -> Session {
                     ntot: rng.uniform(0.5, 4.0),
                     guess: if rng.chance(0.7) { Some(rng.below(64)) } else { None },
                 },
-                _ => SOp::FlashSameTp {
+                8 => SOp::FlashSameTp {
                     from: rng.below(64),
                     v: rng.uniform(0.15, 0.85),
                     ntot: rng.uniform(0.5, 4.0),
                     use_guess: rng.chance(0.8),
                 },
+                _ => {
+                    if rng.chance(0.5) {
+                        SOp::FlashSameP { from: rng.below(64), dt: rng.uniform(-6.0, 6.0), ntot: rng.uniform(0.5, 4.0) }
+                    } else {
+                        SOp::FlashSameT { from: rng.below(64), pf: rng.uniform(0.9, 1.1), ntot: rng.uniform(0.5, 4.0) }
+                    }
+                }
             });
         } else {
             let r = rng.below(12);
